@@ -14,6 +14,8 @@ func init() {
 			c.guard("C11.1", func() { ruleNoBlockUnderRegistryLock(c, "C11.1", allLocks) })
 			c.guard("C11.2", func() { ruleLockOrder(c, "C11.2") })
 			c.guard("C11.3", func() { ruleStreamLockObservation(c, "C11.3") })
+			c.guard("C11.5", func() { ruleLongHeldLockAcquisitions(c, "C11.5") })
+			c.guard("C11.6", func() { ruleForwardEscapableByStream(c, "C11.6") })
 			c.guard("C11.4", func() {
 				ruleClientRegistrationPairing(c, "C11.4")
 				ruleTrailerBeforeUnregister(c, "C11.4")
@@ -67,7 +69,7 @@ func init() {
 				}, true)
 			})
 			c.guard("C02.2", func() { rulePerEnvelopeGoroutines(c, "C02.2") })
-			c.guard("C02.3", func() { ruleBodyForwarded(c, "C02.3") })
+			c.guard("C02.3", func() { ruleBodyForwarded(c, "C02.3"); ruleStreamPayloadProvenance(c, "C02.3") })
 			c.guard("C02.4", func() { ruleEOFOnlyOnOKTrailer(c, "C02.4") })
 			c.guard("C02.5", func() { ruleTerminalStateBeatsCancel(c, "C02.5") })
 			c.guard("C02.6", func() {
@@ -233,6 +235,7 @@ func init() {
 			c.guard("C12.4", func() { ruleUnknownStream(c, "C12.4") })
 			c.guard("C12.5", func() { ruleServingContinues(c, "C12.5") })
 			c.guard("C12.6", func() {
+				ruleForwardEscapableByStream(c, "C12.6")
 				ruleNoBlockUnderRegistryLock(c, "C12.6", func(k string) bool { return k == "goat.handler.mu" })
 			})
 		},
